@@ -402,6 +402,23 @@ where
     /// If the correspoding stream is not exist, `accept` the stream.
     ///
     /// Actually calls the [`Incoming::recv_data`] method of the corresponding stream.
+    /// A frame that refers to a locally initiated stream which has not been created yet is a
+    /// connection error of type STREAM_STATE_ERROR (RFC 9000 sections 19.5, 19.8, 19.10).
+    fn check_local_stream_created(
+        &self,
+        sid: StreamId,
+        frame_type: qbase::frame::FrameType,
+    ) -> Result<(), QuicError> {
+        if sid.id() >= self.stream_ids.local.opened_streams(sid.dir()) {
+            return Err(QuicError::new(
+                ErrorKind::StreamState,
+                frame_type.into(),
+                format!("local {sid} has not been created yet"),
+            ));
+        }
+        Ok(())
+    }
+
     pub fn recv_data(
         &self,
         (stream_frame, body): (StreamFrame, bytes::Bytes),
@@ -421,6 +438,7 @@ where
                     format!("local {sid} cannot receive STREAM_FRAME"),
                 ));
             }
+            self.check_local_stream_created(sid, stream_frame.frame_type())?;
         }
 
         if let Ok(set) = self.input.streams().as_mut()
@@ -466,6 +484,7 @@ where
                             format!("local {sid} cannot receive RESET_STREAM frame"),
                         ));
                     }
+                    self.check_local_stream_created(sid, reset.frame_type())?;
                 }
                 if let Ok(set) = self.input.streams().as_mut()
                     && let Some((incoming, s)) = set.remove(&sid)
@@ -491,6 +510,8 @@ where
                     }
                     self.try_accept_sid(sid)
                         .map_err(wrapper_error(stop_sending.frame_type()))?;
+                } else {
+                    self.check_local_stream_created(sid, stop_sending.frame_type())?;
                 }
 
                 if let Some(final_size) = self
@@ -520,6 +541,8 @@ where
                     }
                     self.try_accept_sid(sid)
                         .map_err(wrapper_error(max_stream_data.frame_type()))?;
+                } else {
+                    self.check_local_stream_created(sid, max_stream_data.frame_type())?;
                 }
                 if let Some((outgoing, _s)) = self
                     .output
@@ -546,6 +569,7 @@ where
                             format!("local {sid} cannot receive STREAM_DATA_BLOCKED_FRAME"),
                         ));
                     }
+                    self.check_local_stream_created(sid, stream_data_blocked.frame_type())?;
                 }
                 // 仅仅起到通知作用?主动更新窗口的，此帧没多大用，或许要进一步放大缓冲区大小；被动更新窗口的，此帧有用
             }
